@@ -68,3 +68,11 @@ Theorem C10_all_routes_ok : forall d s p acc egr rs total,
   forall r, In r rs -> valid_itinerary_b d s p acc egr r = true /\ limits_ok_b d s p r = true /\ totals_ok_b d p r = true.
 Proof. exact alternatives_all_ok. Qed.
 Print Assumptions C10_all_routes_ok.
+
+(* the full structural statement (first = plain, every route valid / within limits / totals for the ORIGINAL query,
+   pairwise distinct line multisets, caps, failure exactly like the plain query), assembled; the no-better clause
+   is stated with the optimality properties (Optimal.v) *)
+From TrV Require Import Proofs.Assemble.
+Theorem C10_full : C10_full_statement.
+Proof. exact C10_assembled. Qed.
+Print Assumptions C10_full.
